@@ -25,4 +25,14 @@ CHECKS = {
                 "FloatExact hypothesis; narrowing/sign changes are modelled and compared but not part of the claim",
         "technique": "Lean 4 proof (mutual structural recursion over nested GoType) + regenerated tie lemmas + differential correspondence",
     },
+    "C19": {
+        "text": "Lean 4 invariant proof over all schedules of any number of goroutines running the program that is compiled "
+                "from the token list regenerated from Session.client (the model is a translation of the function): no "
+                "(R)Unlock of an unlocked RWMutex, no deadlock, every returned client is the one stored for the address; "
+                "the pinned tree's program is refuted by an explicit 2-goroutine schedule; the real Session is stressed in a "
+                "child process and the live connections per endpoint are counted",
+        "note": "trusts the Lean kernel, the token extractor (lock/map/return operations in source order), the RWMutex "
+                "model; network behaviour and proxies actually working are observed by the stress run only",
+        "technique": "Lean 4 proof (inductive invariant indexed by program counter, all thread counts and schedules) + regenerated program tie + stress correspondence",
+    },
 }
